@@ -212,6 +212,7 @@ func Run(c *Case, ro RunOpts) *Trace {
 	}
 
 	rt.scopeOf = func(i int) scopeAPI { return getScope(i) }
+	rt.root = container
 	for _, op := range c.Ops {
 		if op.K == OpDecorate && op.F != nil {
 			rt.decoIDs[op.F.ID] = true
